@@ -303,6 +303,9 @@ class HydrodynamicsTemplateModel:
         """
         vm = min(self.cb, vw)
         vpMax = min(self.cs2 / vw, vw) if constraint else vm
+        # alpha_+(v_+) decreases to zero at v_+ = v_- and grows again beyond it: an upper
+        # bound on v_+ above v_- (hybrids with cb < vw < cs^2/cb) is no lower bound on alpha
+        vpMax = min(vpMax, vm)
 
         # Find lower and upper bounds on alpha
         alMin = max(
